@@ -172,6 +172,14 @@ def run():
                 offs = [int(r.split(' ')[1]) for r in t['pre_replies'] if r.startswith('ok ') and len(r.split(' ')) == 2]
                 bat = battery_lines(ids, offs, t['tables'])
                 cont = [Runner.op_line(o) for o in ops[k + 1:k + 3]]
+                if t['point'] in GROW or t['point'].startswith('es_store:half') or t['n'] % 5 == 0:
+                    # an interrupted file growth (or append) must not come back later: keep storing after the reopen until
+                    # the map has grown at least twice more, then read everything again
+                    for i in range(9):
+                        xid = bytes([0xc0 + i]) * 31 + b'\x01'
+                        cont.append('STO ' + ev_tok(dict(id=xid, pk=AUTHORS[i % 2], kind=1, t=7 + i, tags=[], content=b'g' * 640)))
+                        ids.append(xid)
+                    bat = battery_lines(ids, offs, t['tables'])
                 t['ids'], t['offs'] = ids, offs
             p = subprocess.run([W], input='\n'.join(lines) + '\n', capture_output=True, text=True)
             t['rc'] = p.returncode
@@ -234,7 +242,7 @@ def run():
                 cc = [r.split(' ')[0] if l.startswith('STO') else norm(l, r) for l, r in zip(t['cont'], mo[nb:nb + nc])]
                 b2 = [norm(l, r) for l, r in zip(t['bat'], mo[nb + nc:2 * nb + nc])]
                 return b1, cc, b2
-            key = (t['h'], k)
+            key = (t['h'], k, len(t['cont']))
             if key not in refs:
                 refs[key] = (ref_run(c.worker, False, 'a'), ref_run(c.worker, True, 'b'), ref_run(M, False, 'ma'), ref_run(M, True, 'mb'))
                 # correspondence of the uninterrupted states (lookups, markers, counts; queries are C05's business)
